@@ -162,7 +162,7 @@ pub fn run(ctx: &Ctx) {
     ctx.set("evaluations", json!(total_evals));
     ctx.set("distinct_nontrivial", json!(all_distinct.len()));
     // (b) histories
-    let searches: Vec<(usize, usize)> = ctx.tier.pick(vec![(2, 4), (3, 1)], vec![(2, 6), (3, 2)]);
+    let searches: Vec<(usize, usize)> = ctx.tier.pick(vec![(2, 4), (3, 1)], vec![(2, 8), (3, 2)]);
     for (aw, depth) in searches {
         let alphabet = materialise(history_cfg(aw));
         let mut events: Vec<Event> = alphabet.iter().cloned().map(Event::doc).collect();
